@@ -1083,6 +1083,11 @@ def c18(tier, seed):
                         ex.res.count('analyses_in_oma_species_resolve_mode')
                     hh = core.load_py(Dh, **dict(dict(phyloxml_dir=ex.tmp) if k % 4 == 0 else {}, **(dict(species_resolve_mode='OMA') if oma18 else {})))
                     str0_ = hh.taxonomy.tree_str
+                    if ex.rng.random() < 0.5:
+                        # iHam pages first (before any profile gives every leaf a genome): r13-C18b / C04b / C10b
+                        for t_ in hh.get_list_top_level_hogs()[:3]:
+                            hh.create_iHam(t_)
+                        ex.res.count('iham_pages_before_reinspecting_the_taxonomy')
                     hh.get_ascii_taxonomy()
                     subs_ = [x for t_ in hh.get_list_top_level_hogs() for x in all_nodes(t_) if isinstance(x, ag.HOG) and x.genome.taxon.up is not None]
                     for x in ex.rng.sample(subs_, min(3, len(subs_))):
